@@ -2250,8 +2250,15 @@ def copy_extent_ok(it, kind):
     """content copies into this._<kind>: -> (definitely wrong extents, extents of a form the check cannot relate to the slot)"""
     bad, unknown = [], []
     otherkind = "indices" if kind == "elements" else "elements"
-    for (ds, ss, callee, line) in it.copy_events:
+    for ev_ in it.copy_events:
+        ds, ss, callee, line = ev_[:4]
+        es = ev_[4] if len(ev_) > 4 else None
         if ds[0] != "this" or ds[1] != kind:
+            continue
+        if es is not None:
+            # the extent was resolved where the copy happens (also inside an inlined helper): slot idx of the size vector of the same kind
+            if es[1] != kind or es[2] != ds[2]:
+                bad.append((line, "%s._%s_size.at(%s)" % (es[0], es[1], es[2])))
             continue
         # find the call again to read its count argument
         for n in it.fn.nodes():
